@@ -176,12 +176,13 @@ def build_driver(type_name, ui_text, header_text, workdir, syntax_compilers=()):
     with open(drv, "w", encoding="utf-8") as f:
         f.write(driver_source(type_name, info["root"][1], info["root"][0]))
     inc = ["-I", INCLUDE, "-I", GEN, "-I", workdir]
+    cenv = dict(os.environ, TMPDIR=workdir)   # the compilers' own temporary objects die with the case directory
     for comp, extra in syntax_compilers:
-        r = subprocess.run([comp, "-std=c++17", "-fsyntax-only", "-w"] + list(extra) + inc + [drv], capture_output=True, text=True)
+        r = subprocess.run([comp, "-std=c++17", "-fsyntax-only", "-w"] + list(extra) + inc + [drv], capture_output=True, text=True, env=cenv)
         if r.returncode != 0:
             errors["%s %s" % (comp, " ".join(extra))] = r.stderr[:4000]
     binary = os.path.join(workdir, "driver")
-    r = subprocess.run([CXX] + SAN_FLAGS + inc + [drv, os.path.join(GEN, "simruntime.o"), "-o", binary], capture_output=True, text=True)
+    r = subprocess.run([CXX] + SAN_FLAGS + inc + [drv, os.path.join(GEN, "simruntime.o"), "-o", binary], capture_output=True, text=True, env=cenv)
     if r.returncode != 0:
         errors["%s build" % CXX] = r.stderr[:4000]
         return {"ok": False, "binary": None, "info": info, "errors": errors}
